@@ -183,8 +183,11 @@ func (mc *MetricsCollector) UpdateBackendHealth(backendName string, isHealthy bo
 	backend.LastHealthCheck = time.Now()
 }
 
-// UpdateBackendConnections updates the active connections count for a backend
-func (mc *MetricsCollector) UpdateBackendConnections(backendName string, connections int32) {
+// UpdateBackendConnections publishes the active connections count of a backend. The gauge is read
+// while the collector is locked: publishers are then ordered like their readings, so a reading is
+// never overwritten by an older one (two requests finishing together could otherwise leave the
+// published count above zero on an idle backend).
+func (mc *MetricsCollector) UpdateBackendConnections(backendName string, gauge func() int32) {
 	mc.metrics.mutex.Lock()
 	defer mc.metrics.mutex.Unlock()
 
@@ -196,7 +199,7 @@ func (mc *MetricsCollector) UpdateBackendConnections(backendName string, connect
 		mc.metrics.BackendMetrics[backendName] = backend
 	}
 
-	backend.ActiveConnections = connections
+	backend.ActiveConnections = gauge()
 }
 
 // RecordRateLimitedRequest records a rate-limited request
